@@ -165,7 +165,7 @@ func generate(r *simrt.Rand, pf *Profile) (Cfg, *Program) {
 		if r.Chance(pf.PrioPct) {
 			s.Prio = pick(r, prioVals)
 		}
-		if r.Chance(pf.IDPct) || batch >= 0 {
+		if r.Chance(pf.IDPct) || (batch >= 0 && r.Chance(70)) {
 			s.ID = pick2(r, n)
 		}
 		switch x := r.Intn(100); {
@@ -639,6 +639,7 @@ func init() {
 			pf.Conc = []int{1, 2, 2, 3, 4, 8}
 			pf.Producers, pf.Adds = [2]int{1, 2}, [2]int{1, 3}
 			pf.BatchPct, pf.BatchMax = 85, 8
+			pf.IDGenPct = 40
 			pf.ErrPct, pf.PanicPct = 25, 10
 			pf.DelayPct, pf.MaxDelay = 15, 2
 			pf.ReaderPct, pf.BatchWaitPct = 90, 60
